@@ -162,6 +162,9 @@ def find_contract_for_method(self, recv: ObjRef, meth: str):
 
 def call_method(self, st, recv: ObjRef, meth: str, args, kwargs):
     contract, key = self.find_contract_for_method(recv, meth)
+    top = getattr(self, "top_contract", None)
+    if top is not None and self.call_depth == 0 and meth in getattr(top, "call_overrides", {}):
+        contract, key = self.reg.contracts[top.call_overrides[meth]], None   # the function under verification sees this callee contract
     if contract is not None:
         if contract.handler:
             return contract.handler(self, st, recv, args, kwargs)
@@ -538,6 +541,48 @@ def next_on_genexp(self, node, comp, g, st, it):
                 out.append((RAISE, missing, ExcVal("StopIteration")))
             else:
                 out.extend(self.eval(default, missing))
+        return out
+    # next(f(x) for x in <set-like> if cond(x)) : some element that satisfies the filter, or the default
+    if isinstance(it, GenVal) or (isinstance(it, Val) and isinstance(it.ty, SetT)):
+        ety = it.elem_ty if isinstance(it, GenVal) else it.ty.elem
+        member = (lambda t: z3.Select(it.out_set, t)) if isinstance(it, GenVal) else (lambda t: z3.Select(it.term, t))
+        out = []
+        # (a) an element passing the filter exists: pick one (the filter is evaluated path by path)
+        x0 = mk_fresh(ety, "pick")
+        s_found = st.fork()
+        s_found.assume(member(x0.term))
+        s_found.trail.append("next=found")
+        for kind, s1, vs in bind(self.assign_target(g.target, x0, s_found), lambda s3, _v: self.eval_many(list(g.ifs) + [comp.elt], s3)):
+            if kind != OK:
+                out.append((kind, s1, vs))
+                continue
+            s1.assume(z3.And([truthy(c) for c in vs[:-1]] or [z3.BoolVal(True)]))
+            if quick_sat(s1.pc):
+                out.append((OK, s1, vs[-1]))
+        # (b) no element passes the filter: the merged filter condition is false for every member
+        xq = z3.Const(fresh_name("nx"), ety.sort())
+        scratch = st.fork()
+        base = len(scratch.pc)
+        alts, raising = [], []
+        for kind, s1, vs in bind(self.assign_target(g.target, Val(xq, ety), scratch), lambda s3, _v: self.eval_many(list(g.ifs), s3)):
+            if kind != OK:
+                raising.append((z3.And(list(s1.pc[base:]) or [z3.BoolVal(True)]), vs))
+                continue
+            alts.append(z3.And(list(s1.pc[base:]) + [truthy(c) for c in vs] or [z3.BoolVal(True)]))
+        passes = z3.Or(alts) if alts else z3.BoolVal(True)
+        for rcond, exc in raising:   # (c) the filter raises for some member
+            s_r = st.fork()
+            s_r.assume(z3.Exists([xq], z3.And(member(xq), rcond)))
+            if quick_sat(s_r.pc):
+                out.append((RAISE, s_r, exc))
+        s_none = st.fork()
+        s_none.assume(z3.ForAll([xq], z3.Implies(member(xq), z3.And(z3.Not(passes), *[z3.Not(rc) for rc, _e in raising]))))
+        s_none.trail.append("next=exhausted")
+        if quick_sat(s_none.pc):
+            if default is None:
+                out.append((RAISE, s_none, ExcVal("StopIteration")))
+            else:
+                out.extend(self.eval(default, s_none))
         return out
     raise Unsupported("next(genexp) over this iterable")
 
